@@ -573,5 +573,5 @@ func TestC28(t *testing.T) {
 	} else if err := setupActionRepo(); err == nil {
 		defer cleanupActionRepo()
 	}
-	lib.Check(t, spec, lib.Scale(5000, 500000), genAny, runAny)
+	lib.Check(t, spec, lib.Scale(5000, 300000), genAny, runAny)
 }
